@@ -473,8 +473,11 @@ def run(prog, scope_units=None, rule="R-IDXCLASS", exceptions=EXCEPT):
                                             fld, itxt, have, need, len(locs), "s" if len(locs) > 1 else "",
                                             "; a structural index must be mapped through structmap[]" if (have, need) == (STRUCT, COL) else "")))
     # sibling call sites must agree on the index space they pass to an int parameter that the callee uses as a subscript
-    if not scope_units:
+    if True:
         nconf = 0
+        in_scope = None
+        if scope_units:
+            in_scope = {f.name for f in prog.funcs.values() if any(u in f.unit for u in scope_units)}
         for (gk, k, classes) in getattr(prog, "_idxclass_conflicts", []):
             g = prog.funcs.get(gk)
             if g is None or g.live is None or k >= len(g.params):
@@ -486,6 +489,8 @@ def run(prog, scope_units=None, rule="R-IDXCLASS", exceptions=EXCEPT):
             need = uses[0][3]
             for (c, loc, caller) in prog._idxclass_sites[(gk, k)]:
                 if c in (ROW, STRUCT, COL) and c != need:
+                    if in_scope is not None and caller not in in_scope:
+                        continue
                     nconf += 1
                     res.violations.append(Violation(rule, "%s|parameter %s of %s given a %s index" % (caller.replace("mpq_", ""), pname, g.name.replace("mpq_", ""), c), caller, short_loc(loc),
                                                     "%s subscripts %s[%s] (an array indexed by %s) with its parameter %s; this call passes a %s index there while "
